@@ -603,6 +603,24 @@ def job_circuit_histories(tier, rng):
             if not from_repo(e):
                 raise
             chk(False, step='int forms exception', exception=f'{type(e).__name__}: {e}')
+    # the ordered target tuple may be handed over as a numpy array, including a non-contiguous VIEW (reversed, strided): the logical order counts
+    for t in range(6):
+        try:
+            n = 4; q = _rc(rng, 2 ** n); U2 = _rc(rng, 4, 4)
+            a_, b_ = (int(x) for x in rng.choice(n, size=2, replace=False))
+            ref = SS.embed(U2, [a_, b_], n) @ q
+            views = [np.array([a_, b_]), np.array([b_, a_])[::-1], np.array([a_, 9, b_])[::2], np.array([[a_, 7], [b_, 7]])[:, 0]]
+            okv = all(np.abs(_st.apply_gate(q, U2, v_) - ref).max() < 1e-12 for v_ in views)
+            c = numqi.sim.Circuit(); c.double_qubit_gate(U2, *views[1]); c.single_qubit_gate(np.eye(2), n - 1)
+            c2 = numqi.sim.Circuit(); c2.append_gate(numqi.sim.Gate('unitary', U2, name='u'), views[1]); c2.single_qubit_gate(np.eye(2), n - 1)
+            okv = okv and np.abs(c.apply_state(q) - ref).max() < 1e-12 and np.abs(c2.apply_state(q) - ref).max() < 1e-12
+            okv = okv and np.abs(_st.apply_control_n_gate(q, _rc(rng, 2, 2) * 0 + np.eye(2), np.array([b_, a_])[::-1][:1], np.array([b_])) - q).max() < 1e-12
+            chk(okv, step='index given as a numpy view (reversed / strided)', index=[a_, b_])
+        except Exception as e:
+            from vf.prover import from_repo
+            if not from_repo(e):
+                raise
+            chk(False, step='numpy view exception', exception=f'{type(e).__name__}: {e}')
     # four-qubit gates on every ordered choice of 4 out of 4 / 5 qubits (a sample of the 24 / 120 orders)
     import itertools as _it
     for n in (4, 5):
